@@ -216,6 +216,7 @@ class N:
         self.cs: list[N] = []
         self.decls: list[tuple[str, str]] = []
         self.xsi_type: Optional[str] = None
+        self.hoist = False             # the prefix used by xsi:type is declared on the parent, not on the element itself
         self.tail: Optional[str] = None
 
 
@@ -269,6 +270,10 @@ def gen_node(rng, e: El, spec: Spec, perr: float, defects: list, depth: int, tag
             x.text = gen_value(rng, 'xs:int', max(perr, 0.3), defects)
             n.cs.append(x)
             defects.append('xsi-type')
+            # where the prefix of the xsi:type value is declared (only matters with a target namespace and the
+            # default-namespace style): on the element itself, or on its parent (then it is in scope for the element
+            # only through an ancestor that is not the root when the parent is below the root)
+            n.hoist = rng.random() < 0.3
         return n
     if e.kind == 'simple':
         n.text = gen_value(rng, e.stype, perr, defects)
@@ -352,13 +357,17 @@ def serialise(n: N, spec: Spec, style: str, top=True, mark: Optional[list] = Non
         s += f' xmlns:xsi="{XSI}"'
     for p, u in n.decls:
         s += f' xmlns:{p}="{u}"'
+    own_t = False
     if n.xsi_type:
         tp = ''
         if spec.tns:
             tp = 't:'
-            if style != 'prefix':
+            if style != 'prefix' and not (n.hoist and not top):
                 s += f' xmlns:t="{TNS}"'
+                own_t = True
         s += f' xsi:type="{tp}{n.xsi_type}"'
+    if spec.tns and style != 'prefix' and not own_t and any(c.xsi_type and c.hoist for c in n.cs):
+        s += f' xmlns:t="{TNS}"'      # declared here for the children that use it in their xsi:type
     seen = set()
     for k, v in n.attrs:
         if k in seen:
